@@ -18,7 +18,8 @@ from .convspec import option_box
 
 
 def worker(job):
-    repo, D, in_sig, out_sig, bias, padding, rd, ld, flags, gis, shift = job
+    repo, D, in_sig, out_sig, bias, padding, rd, ld, flags, gis, shift = job[:11]
+    history = job[11] if len(job) > 11 else None
     it, w = get_interp(repo)
     ml = it.get_module("ginjax.ml")
     G = group(D)
@@ -40,6 +41,11 @@ def worker(job):
     from .c08 import symbolise
 
     symbolise(w, layer)  # every array leaf except the filter bank is an independent trainable symbol
+    if history == "roundtrip":
+        # "for every value of its weights and biases (not only the initial ones)": a trained layer has been through
+        # pytree flatten / unflatten (filter_jit, apply_updates), which re-creates its dict fields with SORTED keys
+        layer = tree_map(lambda a: a, layer)
+        cfg["history"] = "pytree round trip of the layer (as after a training step)"
     xb = {t: block("x", t, (c,), N, D) for t, c in in_sig}
     x = make_multi(it, [t for t, _ in in_sig], xb, D, flags)
     y = attempt(lambda: layer(x))
@@ -115,6 +121,13 @@ def run(ctx):
                     # elements are added as redundancy
                     gsel = ((3, 6) if D == 2 else (29,)) if th else ()
                     jobs.append((ctx.repo, D, isig, osig, bias, padding, rd, ld, flags, tuple(gsel), (1,) + (0,) * (D - 2) + (2,)))
+    # layers as they are after a training step (pytree round trip); signatures listed in a non-sorted order with equal
+    # channel counts, so that any order-dependent packing of weights / outputs shows
+    rsigs = [((((1, 0), 2), ((0, 0), 2)), (((1, 0), 2), ((0, 0), 2))), ((((0, 1), 1), ((0, 0), 1)), (((1, 1), 1), ((1, 0), 1), ((0, 0), 1)))]
+    for D in (2, 3) if th else (2,):
+        for isig, osig in rsigs[: 2 if D == 2 else 1]:
+            for bias in (("auto", "mean", False) if th else ("auto",)):
+                jobs.append((ctx.repo, D, isig, osig, bias, "TORUS", 1, None, (True,) * D, (), (1,) + (0,) * (D - 2) + (2,), "roundtrip"))
     # the option box shared by C01 / C04 / C06 / C11 (symmetric paddings, unit stride), one signature, bias 'auto'
     for D in (2, 3) if th else (2,):
         for padding, stride, rd, ld, flags in option_box(D, (3,) * D, symmetric_only=True, unit_stride=True):
@@ -151,7 +164,7 @@ def run(ctx):
         if isinstance(padding, int) and ld is None and 3 + 2 * padding - ((3 - 1) * rd + 1) < 0:
             continue
         n_s += 1
-        jobs.append((ctx.repo, D, isig, osig, bias, padding, rd, None if ld is None else [ld] * D, (torus,) * D, (), (1,) + (0,) * (D - 2) + (2,)))
+        jobs.append((ctx.repo, D, isig, osig, bias, padding, rd, None if ld is None else [ld] * D, (torus,) * D, (), (1,) + (0,) * (D - 2) + (2,), "roundtrip" if n_s % 3 == 0 else None))
     by = {}
     for job, r in ctx.pairs(worker, jobs):
         cfg = r["cfg"]
